@@ -16,6 +16,7 @@ from bfsa.terms import C, NONE, Term, cval, is_const, mk, show, subterms
 from bfsa.types import type_of
 
 from rules.bf3 import BF3, _self_attr
+from rules import stackrt
 
 LEVEL = "other"
 BEC2 = "bec2format.bec2file"
@@ -263,6 +264,52 @@ def _is_flag(c: Term, pname: str) -> bool:
     return c.op == "param" and c.args[0] == pname
 
 
+def derivation_scenarios(prog, chk, pid, tier):
+    """derive_auth_blocks_from_config on enumerated configurations (constant values folded through the repository code by the
+    interpreter in concrete-control mode): which blocks result, and which version the update block announces"""
+    import itertools
+
+    from rules import stackrt as R
+
+    P = lambda s: "%s.%s" % (pid, s)
+    stk = R.Stack(prog)
+    fi = prog.method(BEC2 + ".Bec2File", "derive_auth_blocks_from_config")
+    feats = ["code", "customer", "project", "prj_version", "prj_name", "dev_version", "dev_name"]
+    enc = {"code": "(0x0202, 0x82): b'SECRET01'", "customer": "(0x620, 0x01): b'\\x27\\xfa'", "project": "(0x620, 0x05): b'\\x00\\x11'", "prj_version": "(0x620, 0x07): b'\\x09'",
+           "prj_name": "(0x620, 0x06): b'Prj'", "dev_version": "(0x620, 0x04): b'\\x04'", "dev_name": "(0x620, 0x03): b'Dev'"}
+    bad = None
+    n = 0
+    for r in range(len(feats) + 1):
+        for subset in itertools.combinations(feats, r):
+            for cust in (False, True):
+                if cust and tier != "thorough" and len(subset) not in (0, 3, 7):
+                    continue
+                n += 1
+                cfg = "{" + ", ".join(enc[f] for f in subset) + "}"
+                src = ("def drv(Bf3FileC):\n    f = Bec2File(Bf3FileC(), [], b'0123456789abcdef')\n    f.derive_auth_blocks_from_config(%s, %s)\n    f.derive_auth_blocks_from_config(%s, %s)\n"
+                       "    return [(k, b.tag, getattr(b, 'version', None), getattr(b, 'config_security_code', None)) for k, b in f.auth_blocks.items()]\n") % (cfg, cust, cfg, cust)
+                ex, res = stk.run(BEC2, src, {"Bf3FileC": mk("class", "bec2format.bf3file.Bf3File")})
+                has = lambda f: f in subset
+                prj_ok = has("prj_version") and ((has("customer") and has("project")) or has("prj_name"))
+                dev_ok = has("dev_version") and (has("customer") or has("dev_name"))
+                want = [(1, 1, None, None)] if cust else [(3, 3, None, None)]
+                if has("code") and (prj_ok or dev_ok):
+                    want.append((2, 2, 9 if prj_ok else 4, b"SECRET01"))
+                if res.dead or res.ret is None:
+                    got = "raises"
+                else:
+                    items = ex.iter_items(res.ret, res.state)
+                    got = []
+                    for it in items or []:
+                        parts = ex.unpack_to(it, 4, res.state, None)
+                        got.append(tuple(cval(x) if is_const(x) else show(x, 3) for x in parts))
+                if got != want and bad is None:
+                    bad = ("%s, cust_key_support=%s" % (sorted(subset), cust), "blocks (key, tag, version, code) are %s, expected %s" % (got, want))
+    chk.require(bad is None, P("derivation-scenarios"), fi.qualname, "%d configurations x initial-block kind, each derived twice" % n, "%s:%d" % (fi.file, fi.lineno),
+                "exactly the requested initial block, plus an update block with the security code and the version of the project-settings identifier (the device-settings identifier only when no project-settings identifier exists) exactly when code and identifier exist; deriving twice changes nothing",
+                "configuration %s: %s" % bad if bad else "")
+
+
 def run(prog, chk, tier):
     chk.explanation = ("Per-operation facts from which history independence composes: set_config removes the component found by the TYPE=03 search before appending the new "
                        "one as its last mutation; the KeyError-swallowing handler can only be reached by the explicit not-found raise (any implicit KeyError source inside the "
@@ -273,3 +320,4 @@ def run(prog, chk, tier):
     set_config_rules(prog, chk, "C11")
     comments_rules(prog, chk, "C11")
     auth_block_rules(prog, chk, "C11")
+    stackrt.guarded(chk, "C11.derivation-scenarios", derivation_scenarios, prog, chk, "C11", tier)
